@@ -26,6 +26,7 @@ type ClientPlan struct {
 	GapMs             int       `json:"gap_ms,omitempty"`
 	StartStep         int       `json:"start_step,omitempty"`
 	StartAfterClient  int       `json:"start_after_client,omitempty"` // 1-based: start when that client is finished/closed
+	StartAfterEvents  bool      `json:"start_after_events,omitempty"` // start once every planned event has fired
 	Slow              bool      `json:"slow,omitempty"`
 	NeverRead         bool      `json:"never_read,omitempty"`
 	CloseAfterSent    int       `json:"close_after_sent"`    // bytes; -1 never
